@@ -18,7 +18,6 @@ use crate::parser::SegmentType;
 
 use crate::instruction::InstructionOps;
 use failure::{bail, Error};
-use maplit::btreeset;
 
 /// How long line of macro body may become after substitution of arguments
 const MAX_MACRO_LINE: usize = 64 * 1024;
@@ -99,7 +98,7 @@ pub fn build_pass_0(
     let context = Pass0Context {
         macro_depth: Cell::new(0),
         current_path: PathBuf::new(),
-        include_paths: RefCell::new(btreeset! {}),
+        include_paths: RefCell::new(common_context.include_paths.borrow().clone()),
         common_context: common_context.clone(),
         segments: Rc::new(RefCell::new(vec![])),
         macros: Rc::new(Macro::new()),
